@@ -425,6 +425,11 @@ fn emit_regs(k: usize, spec: &AppSpec, regs: &[Reg], depth: usize, s: &mut Strin
                     if t.attr_clone.is_some() {
                         over.push_str(match t.clone_if_necessary { Some(true) => ".clone_if_necessary()", _ => ".never_clone()" });
                     }
+                    if let (Some(h), 0) = (t.specific_eh, *variant) {
+                        if t.fallible_of(0).is_some() {
+                            let _ = write!(over, ".error_handler(M{k}_X{h})");
+                        }
+                    }
                     let module = if in_own_module(t, *variant) { format!("cs{ty}_{variant}::") } else { String::new() };
                     let _ = writeln!(s, "{ind}{bp}.constructor({module}M{k}_C{ty}_{variant}){over};");
                 }
